@@ -474,7 +474,10 @@ def pull_server_name(buf: Buffer) -> str:
             raise AlertIllegalParameter(
                 f"ServerName has an unknown name type {name_type}"
             )
-        return pull_opaque(buf, 2).decode("ascii")
+        try:
+            return pull_opaque(buf, 2).decode("ascii")
+        except UnicodeDecodeError:
+            raise AlertDecodeError("ServerName is not ASCII")
 
 
 def push_server_name(buf: Buffer, server_name: str) -> None:
@@ -861,9 +864,10 @@ def pull_encrypted_extensions(buf: Buffer) -> EncryptedExtensions:
             extension_type = buf.pull_uint16()
             extension_length = buf.pull_uint16()
             if extension_type == ExtensionType.ALPN:
-                extensions.alpn_protocol = pull_list(
-                    buf, 2, partial(pull_alpn_protocol, buf)
-                )[0]
+                alpn_protocols = pull_list(buf, 2, partial(pull_alpn_protocol, buf))
+                if not alpn_protocols:
+                    raise AlertDecodeError("ALPN extension has no protocol name")
+                extensions.alpn_protocol = alpn_protocols[0]
             elif extension_type == ExtensionType.EARLY_DATA:
                 extensions.early_data = True
             else:
@@ -2157,13 +2161,18 @@ class Context:
         )
 
     def _set_peer_certificate(self, certificate: Certificate) -> None:
-        self._peer_certificate = x509.load_der_x509_certificate(
-            certificate.certificates[0][0]
-        )
-        self._peer_certificate_chain = [
-            x509.load_der_x509_certificate(certificate.certificates[i][0])
-            for i in range(1, len(certificate.certificates))
-        ]
+        if not certificate.certificates:
+            raise AlertDecodeError("Certificate message has no certificates")
+        try:
+            self._peer_certificate = x509.load_der_x509_certificate(
+                certificate.certificates[0][0]
+            )
+            self._peer_certificate_chain = [
+                x509.load_der_x509_certificate(certificate.certificates[i][0])
+                for i in range(1, len(certificate.certificates))
+            ]
+        except ValueError:
+            raise AlertBadCertificate("Certificate could not be parsed")
 
     def _set_state(self, state: State) -> None:
         if self.__logger:
